@@ -194,13 +194,16 @@ Lemma T_gsub o : mg_gsub T o =
   end.
 Proof. reflexivity. Qed.
 
+Lemma T_gpos : mg_gpos T = f_gpos f.
+Proof. unfold mg_gpos. subst T. unfold M_codec, M_write_tables. cbn [t_gpos t_kern]. destruct (f_gpos f); reflexivity. Qed.
+
 (* all fields at once *)
 Lemma T_fields hm : (ver_to_milli (f_version f) <? 65536000)%N = true ->
   merge_fields T hm (f_outl f) = normalize f.
 Proof.
   intros Hver. unfold merge_fields, normalize.
   rewrite T_family, T_weight, (T_version Hver), T_italic, T_bold, T_regular, T_oblique, T_serif, T_script,
-    T_cap, T_xh, T_perm, T_angle, T_gsub, T_name.
+    T_cap, T_xh, T_perm, T_angle, T_gsub, T_gpos, T_name.
   reflexivity.
 Qed.
 End Cycle.
@@ -434,4 +437,46 @@ Proof.
   - destruct (f_gsub f); [reflexivity|].
     match goal with Hg : (is_some None || _) = true |- _ => cbn [is_some orb] in Hg;
       destruct (std_ligatures f); [discriminate|reflexivity] end.
+Qed.
+
+(* ---------- generations ---------- *)
+
+Lemma in_range_normalize f : in_range f = true -> in_range (normalize f) = true.
+Proof.
+  unfold in_range. intros H.
+  apply andb_prop in H as [H Hver]. rewrite andb_true_iff. split.
+  - unfold normalize. cbn [f_outl]. exact H.
+  - unfold normalize. cbn [f_version]. unfold norm_version.
+    apply N.ltb_lt in Hver. rewrite ver_to_milli_of_decimal by exact Hver. apply N.ltb_lt. exact Hver.
+Qed.
+
+Lemma in_range_version f : in_range f = true -> (ver_to_milli (f_version f) <? 65536000)%N = true.
+Proof. unfold in_range. intros H. apply andb_prop in H as [_ H]. exact H. Qed.
+
+(* the write/read cycle, split into its three stages *)
+Theorem write_read_normal f : in_range f = true ->
+  exists t, M_write_derive f = Ok t /\ M_read_merge (M_codec t) = Ok (normalize f).
+Proof.
+  intros Hr. pose proof (cycle_normal_form f Hr) as H.
+  unfold M_cycle in H.
+  destruct (M_write_derive f) as [t| | |] eqn:Ew; cbn [obind] in H; try discriminate.
+  exists t. split; [reflexivity|].
+  destruct (M_read_merge (M_codec t)) as [f1| | |]; cbn [obind] in H; try discriminate.
+  inversion H. reflexivity.
+Qed.
+
+(* generation 2 = generation 1 *)
+Theorem second_generation f t1 f1 : in_range f = true -> M_cycle f = Ok (t1, f1) ->
+  exists t2, M_cycle f1 = Ok (t2, f1).
+Proof.
+  intros Hr H1. rewrite (cycle_normal_form f Hr) in H1. inversion H1; subst.
+  eexists. rewrite (cycle_normal_form _ (in_range_normalize f Hr)).
+  rewrite (normalize_idem f (in_range_version f Hr)). reflexivity.
+Qed.
+
+(* a canonical value comes back exactly *)
+Theorem canonical_cycle f : in_range f = true -> canonical f = true ->
+  exists t, M_cycle f = Ok (t, f).
+Proof.
+  intros Hr Hc. eexists. rewrite (cycle_normal_form f Hr), (normalize_canonical f Hc). reflexivity.
 Qed.
